@@ -74,7 +74,7 @@ func genC04(t *rapid.T) c04Case {
 			targets = append(targets, gen.StreamTarget{Chain: e.Chain, TruePreds: e.TruePreds([]string{"a", "b", "c"})})
 		}
 		x := gen.DrawStreamXPath(t, targets, gen.StreamXPathOpts{})
-		c.Path, c.Pred = x.Path, x.Pred
+		c.Path, c.Pred = x.Lead+x.Path, x.Pred+x.Trail
 		return c
 	}
 	c.Format = "json"
@@ -101,7 +101,7 @@ func genC04(t *rapid.T) c04Case {
 		targets = append(targets, gen.StreamTarget{Chain: p.Chain, TruePreds: p.TruePreds([]string{"a", "b", "c"}, numeric)})
 	}
 	x := gen.DrawStreamXPath(t, targets, gen.StreamXPathOpts{JSON: true, Numeric: numeric})
-	c.Path, c.Pred = x.Path, x.Pred
+	c.Path, c.Pred = x.Lead+x.Path, x.Pred+x.Trail
 	return c
 }
 
@@ -425,13 +425,19 @@ func checkC04(c c04Case) obs.Result {
 	}
 	classes := []string{"format=" + c.Format, c04PredClass(c.Pred)}
 	switch {
-	case strings.Contains(c.Path, "//"):
+	case strings.Contains(c.Path, "//") || strings.Contains(c.Path, "descendant"):
 		classes = append(classes, "path=descendant")
 	default:
 		classes = append(classes, "path=absolute")
 	}
 	if strings.Contains(c.Path, "*") {
 		classes = append(classes, "path=wildcard")
+	}
+	if strings.Contains(c.Path, "::") {
+		classes = append(classes, "notation=unabbreviated-axis")
+	}
+	if x := c.xpath(); strings.TrimSpace(x) != x {
+		classes = append(classes, "notation=padded")
 	}
 	if exp.nested {
 		classes = append(classes, "nested-candidate")
